@@ -627,6 +627,22 @@ zgsisx(superlu_options_t *options, SuperMatrix *A, int *perm_c, int *perm_r,
 
 	if ( lwork == -1 ) {
 	    mem_usage->total_needed = *info - A->ncol;
+	    if ( mc64 ) { /* Undo the row permutation of A, release perm[]. */
+		NCformat *Astore = AA->Store;
+		int_t nnz = Astore->nnz, *rowind = Astore->rowind;
+		int *iperm;
+		if ((iperm = int32Malloc(n)) == NULL)
+		    ABORT("SUPERLU_MALLOC fails for iperm[]");
+		for (i = 0; i < n; ++i) iperm[perm[i]] = i;
+		for (i = 0; i < nnz; ++i) rowind[i] = iperm[rowind[i]];
+		SUPERLU_FREE(iperm);
+		SUPERLU_FREE(perm);
+	    }
+	    Destroy_CompCol_Permuted(&AC);
+	    if ( A->Stype == SLU_NR ) {
+		Destroy_SuperMatrix_Store(AA);
+		SUPERLU_FREE(AA);
+	    }
 	    return;
 	}
 
